@@ -202,3 +202,45 @@ pub(crate) fn note_counter_visit(key: &Key) {
 pub fn take_counter_visits() -> Vec<Key> {
     std::mem::take(&mut *COUNTER_VISITS.lock().unwrap_or_else(|e| e.into_inner()))
 }
+
+/// The send counters of a `TelemetryUpdate` (what `track_packet_send_succeeded` / `track_packet_send_failed` maintain).
+#[derive(Clone, Copy, Debug, Default, PartialEq, Eq)]
+pub struct SendCounts {
+    pub packets_sent: u64,
+    pub packets_dropped: u64,
+    pub packets_dropped_writer: u64,
+    pub bytes_sent: u64,
+    pub bytes_dropped: u64,
+    pub bytes_dropped_writer: u64,
+}
+
+/// What one iteration of the loop of `Forwarder::run` accumulated in its `TelemetryUpdate`, observed right after the
+/// last payload of the cycle was handed to the socket.
+#[derive(Clone, Debug, PartialEq, Eq)]
+pub struct RunCycle {
+    /// `config.remote_addr` of the forwarder (its `Display` form), to tell exporters apart.
+    pub remote: String,
+    pub flush: FlushCounts,
+    pub send: SendCounts,
+}
+
+type RunObserver = Arc<dyn Fn(&RunCycle) + Send + Sync>;
+
+static RUN_OBSERVER: std::sync::Mutex<Option<RunObserver>> = std::sync::Mutex::new(None);
+
+/// Installs (or removes) the process-wide observer of `Forwarder::run` cycles. The observer runs on the forwarder's
+/// thread, outside of any lock, after the payload loop of each cycle.
+pub fn set_run_observer(observer: Option<RunObserver>) {
+    *RUN_OBSERVER.lock().unwrap_or_else(std::sync::PoisonError::into_inner) = observer;
+}
+
+pub(crate) fn run_cycle_done(remote: &str, update: &TelemetryUpdate) {
+    let observer = RUN_OBSERVER.lock().unwrap_or_else(std::sync::PoisonError::into_inner).clone();
+    if let Some(observer) = observer {
+        observer(&RunCycle {
+            remote: remote.to_string(),
+            flush: update.verif_counts(),
+            send: update.verif_send_counts(),
+        });
+    }
+}
